@@ -202,7 +202,7 @@ theorem parseInstantiationArgument_sound_step (pf : Nat)
       refine ⟨(Suf.adv _).trans (Suf.adv _), by omega, ?_⟩
       intro gf hgf
       obtain ⟨g, rfl⟩ : ∃ g, gf = g + 1 := ⟨gf - 1, by omega⟩
-      simp [gArg, hk, h3, mem_gId, and_assoc, eraseArg, erase_identAt]
+      simp [gArg, hk, h3, mem_gId, eraseArg, erase_identAt]
   · rename_i k hk
     split at h
     · rename_i hks
